@@ -1,4 +1,5 @@
 import CodeLimit.Lemmas.EngineCorrect
+import CodeLimit.Lemmas.PredFamily
 /-!
 # C13 - the pattern engine implements regular-expression semantics
 
@@ -6,33 +7,65 @@ Property theorems only (helper lemmas live in `CodeLimit/Lemmas`). Every theorem
 quantified over every pattern `r` (atoms, sequence, alternation, optional, zero-or-more,
 one-or-more, nested in any way), every input word `w`, every value `base` of the global state
 id counter and every set-iteration order `ord` (`IsOrder ord`: the order yields each element
-exactly once). Atoms are `Identity` predicates over an alphabet with decidable equality, so
-they are pairwise disjoint, as the property requires. `Lang r` is the regular language of `r`
-(`CodeLimit/Spec/Regex.lean`).
+exactly once).
+
+Scope of the sections, stated honestly:
+
+* Sections 1-5 (`build_terminates` ... `dfa_nfa_agree`) are about **`Identity` atoms only**: the
+  model functions `matchFull`, `startsWith`, `nfaMatch` (`Model/Pattern.lean`,
+  `Model/Regex.lean`) judge an item by equality with the atom (`idAcceptor`), the input word is a
+  word over the alphabet of atoms, and `Lang r` (`CodeLimit/Spec/Regex.lean`) is the regular
+  language of `r` over that alphabet. `Identity` predicates over an alphabet with decidable
+  equality are pairwise disjoint, so this is one instance of the property, not the property.
+  (Section 1, building the matcher, does not depend on how atoms judge items at all.)
+* Section 6 lifts sections 3-5 to **every pairwise-disjoint family of stateless predicates**:
+  atom `a` accepts item `x` iff `P a x = true` for an arbitrary `P : α → β → Bool`; the
+  hypothesis is `DisjointOn P r` (no item is accepted by two different atoms of `r`), the
+  semantics is `LangP P r` (`CodeLimit/Spec/PredFamily.lean`: the items can be labelled by
+  accepting atoms spelling a word of `Lang r`; `pred_language_compositional` shows it is the
+  regular language of `r` over items). `identity_is_instance` shows that sections 3-5 are
+  the instance `P a x := decide (a = x)`; `disjoint_needed` shows that without disjointness
+  `match` raises "Multiple transitions found!" on a word of the language.
+* **Stateful predicates** (`Balanced`, whose `accept` mutates a nesting depth) are not covered
+  here: they are the business of C14b / C14nest / C15.
 -/
 namespace CL.C13
 
 variable {α : Type} [DecidableEq α]
 
-/-- Building a matcher terminates for every pattern, including repetitions of patterns that
-can match nothing (`star (opt x)`, `plus (opt x)`, `star (star x)`): the ε-closure fuel
-(`mem_closure_iff` holds for the fuel given in the model) and the subset-construction fuel
-are always sufficient. -/
+/-! ## 1. building the matcher -/
+
+/-- Building the deterministic matcher never runs out of fuel: for every pattern, including
+repetitions of patterns that can match nothing (`star (opt x)`, `plus (opt x)`, `star (star x)`),
+the worklist loop of the subset construction `nfaToDfa` finishes within the fuel `dfaFuel` the
+model gives it (`none` = "out of fuel" is never returned). "Terminates" here means exactly this
+and nothing more. In particular the statement says nothing about the ε-closure: in the model
+ε-closure fuel exhaustion is SILENT (`closureAux E 0 _ vis = vis`, `Model/Regex.lean`: the loop
+would just return the states visited so far, it cannot make `nfaToDfa` return `none`), so the
+fact that the closure fuel is sufficient, i.e. that `closure` terminates on ε-cycles with the
+complete set of ε-reachable states, is NOT a consequence of `build_terminates`; it is the
+theorem `closure_exact` below. -/
 theorem build_terminates (r : Rx α) (base : Nat) {ord : List α → List α} (hord : IsOrder ord) :
     ∃ D, nfaToDfa (compile r base) ord = some D :=
   compile_terminates r base hord
 
 omit [DecidableEq α] in
-/-- ε-closure computes exactly ε-reachability (in particular it terminates on ε-cycles). -/
+/-- ε-closure computes exactly ε-reachability: the fuel given to `closureAux` in the model is
+always sufficient (in particular on ε-cycles, e.g. `star (opt x)`), so the silent out-of-fuel
+branch of `closureAux` never cuts the result short. -/
 theorem closure_exact (E : List (Edge α)) (qs : List Nat) (q : Nat) :
     q ∈ closure E qs ↔ ∃ p, p ∈ qs ∧ EpsReach E p q :=
   mem_closure_iff E qs q
+
+/-! ## 2. the Thompson NFA (`Identity` atoms: words over the alphabet of atoms) -/
 
 omit [DecidableEq α] in
 /-- The Thompson NFA of a pattern accepts exactly the pattern's language. -/
 theorem nfa_language (r : Rx α) (base : Nat) (w : List α) :
     Path (compile r base).edges (compile r base).start w (compile r base).acc ↔ Lang r w :=
   thompson_correct r base w
+
+/-! ## 3. full match (`Identity` atoms) -/
 
 /-- A full match is reported exactly when the word belongs to the language ... -/
 theorem match_iff (r : Rx α) (base : Nat) {ord : List α → List α} (hord : IsOrder ord) (w : List α) :
@@ -49,6 +82,8 @@ theorem match_total (r : Rx α) (base : Nat) {ord : List α → List α} (hord :
     matchFull r base ord w = .ok (some w.length) ∨ matchFull r base ord w = .ok none :=
   matchFull_total r base hord w
 
+/-! ## 4. prefix match (`Identity` atoms) -/
+
 /-- Prefix matching reports the shortest non-empty matching prefix. -/
 theorem starts_with_shortest (r : Rx α) (base : Nat) {ord : List α → List α} (hord : IsOrder ord)
     (w : List α) (k : Nat) :
@@ -62,6 +97,8 @@ theorem starts_with_none (r : Rx α) (base : Nat) {ord : List α → List α} (h
     startsWith r base ord w = .ok none ↔ ∀ k, 1 ≤ k → k ≤ w.length → ¬ Lang r (w.take k) :=
   startsWith_none_iff r base hord w
 
+/-! ## 5. the non-deterministic matcher (`Identity` atoms) -/
+
 /-- The non-deterministic matcher agrees with the same semantics. -/
 theorem nfa_match_iff (r : Rx α) (base : Nat) (w : List α) :
     nfaMatch r base w = true ↔ Lang r w :=
@@ -72,12 +109,242 @@ theorem dfa_nfa_agree (r : Rx α) (base : Nat) {ord : List α → List α} (hord
     (matchFull r base ord w = .ok (some w.length)) ↔ nfaMatch r base w = true := by
   rw [match_iff r base hord, nfa_match_iff]
 
-/-! ## non-vacuity: concrete patterns with nested repetitions of nullable patterns -/
+/-! ## 6. the same for every pairwise-disjoint family of stateless predicates
+
+Atoms are now predicates of an arbitrary kind: `P a x = true` means "atom `a` accepts item `x`"
+(`Predicate.accept`); the input `w : List β` is a sequence of items, not of atoms. The matchers
+are `matchFullP`, `startsWithP`, `nfaMatchP` (`Spec/PredFamily.lean`: `matchFull`, `startsWith`,
+`nfaMatch` with `P a x` in place of `a = x`). The hypothesis `hdis : DisjointOn P r` is the
+"pairwise-disjoint predicates" of the property: no item is accepted by two different atoms that
+occur in `r` (atoms that do not occur in `r` are irrelevant). -/
+
+section predicates
+variable {β : Type} (P : α → β → Bool)
+
+omit [DecidableEq α] in
+/-- `DisjointOn` read with the list of atoms of the pattern (`Rx.atoms`). -/
+theorem disjointOn_iff_atoms (r : Rx α) :
+    DisjointOn P r ↔
+      ∀ a b x, a ∈ r.atoms → b ∈ r.atoms → P a x = true → P b x = true → a = b := by
+  unfold DisjointOn
+  simp only [hasAtom_iff_mem_atoms]
+
+omit [DecidableEq α] in
+/-- `LangP P r` is the regular language of `r` over items, operator by operator: an atom matches
+exactly the one-item sequences whose item it accepts; sequence = concatenation; alternation =
+union; optional adds the empty sequence; zero-or-more / one-or-more are the usual unfoldings.
+(This is what makes `LangP` the semantics the property refers to; no disjointness involved.) -/
+theorem pred_language_compositional (a : α) (r s : Rx α) (w : List β) :
+    (LangP P (.atom a) w ↔ ∃ x, w = [x] ∧ P a x = true) ∧
+    (LangP P (.cat r s) w ↔ ∃ w1 w2, w = w1 ++ w2 ∧ LangP P r w1 ∧ LangP P s w2) ∧
+    (LangP P (.alt r s) w ↔ LangP P r w ∨ LangP P s w) ∧
+    (LangP P (.opt r) w ↔ w = [] ∨ LangP P r w) ∧
+    (LangP P (.star r) w ↔
+      w = [] ∨ ∃ w1 w2, w = w1 ++ w2 ∧ LangP P r w1 ∧ LangP P (.star r) w2) ∧
+    (LangP P (.plus r) w ↔
+      LangP P r w ∨ ∃ w1 w2, w = w1 ++ w2 ∧ LangP P r w1 ∧ LangP P (.plus r) w2) :=
+  ⟨langP_atom a w, langP_cat r s w, langP_alt r s w, langP_opt r w, langP_star r w,
+    langP_plus r w⟩
+
+/-- Over pairwise-disjoint predicates a full match is reported exactly when the sequence of
+items belongs to the pattern's language ... -/
+theorem pred_match_iff (r : Rx α) (base : Nat) {ord : List α → List α} (hord : IsOrder ord)
+    (hdis : DisjointOn P r) (w : List β) :
+    matchFullP P r base ord w = .ok (some w.length) ↔ LangP P r w :=
+  matchFullP_some_iff P r base hord hdis w
+
+/-- ... `None` is returned exactly when it does not ... -/
+theorem pred_no_match_iff (r : Rx α) (base : Nat) {ord : List α → List α} (hord : IsOrder ord)
+    (hdis : DisjointOn P r) (w : List β) :
+    matchFullP P r base ord w = .ok none ↔ ¬ LangP P r w :=
+  matchFullP_none_iff P r base hord hdis w
+
+/-- ... and there is no third outcome: in particular `Pattern.consume` never raises
+"Multiple transitions found!" (this is where disjointness is used, see `disjoint_needed`) and
+the construction never runs out of fuel. -/
+theorem pred_match_total (r : Rx α) (base : Nat) {ord : List α → List α} (hord : IsOrder ord)
+    (hdis : DisjointOn P r) (w : List β) :
+    matchFullP P r base ord w = .ok (some w.length) ∨ matchFullP P r base ord w = .ok none :=
+  matchFullP_total P r base hord hdis w
+
+/-- Over pairwise-disjoint predicates prefix matching reports the shortest non-empty prefix of
+the item sequence that belongs to the pattern's language. -/
+theorem pred_starts_with_shortest (r : Rx α) (base : Nat) {ord : List α → List α}
+    (hord : IsOrder ord) (hdis : DisjointOn P r) (w : List β) (k : Nat) :
+    startsWithP P r base ord w = .ok (some k) ↔
+      (1 ≤ k ∧ k ≤ w.length ∧ LangP P r (w.take k) ∧
+        ∀ j, 1 ≤ j → j < k → ¬ LangP P r (w.take j)) :=
+  startsWithP_some_iff P r base hord hdis w k
+
+/-- It reports nothing exactly when no non-empty prefix belongs to the language. -/
+theorem pred_starts_with_none (r : Rx α) (base : Nat) {ord : List α → List α}
+    (hord : IsOrder ord) (hdis : DisjointOn P r) (w : List β) :
+    startsWithP P r base ord w = .ok none ↔
+      ∀ k, 1 ≤ k → k ≤ w.length → ¬ LangP P r (w.take k) :=
+  startsWithP_none_iff P r base hord hdis w
+
+/-- Prefix matching never raises either. -/
+theorem pred_starts_with_total (r : Rx α) (base : Nat) {ord : List α → List α}
+    (hord : IsOrder ord) (hdis : DisjointOn P r) (w : List β) :
+    ∃ o, startsWithP P r base ord w = .ok o :=
+  startsWithP_total P r base hord hdis w
+
+omit [DecidableEq α] in
+/-- The non-deterministic matcher decides the same language - for EVERY family of stateless
+predicates, disjoint or not (it never calls `Pattern.consume`). -/
+theorem pred_nfa_match_iff (r : Rx α) (base : Nat) (w : List β) :
+    nfaMatchP P r base w = true ↔ LangP P r w :=
+  nfaMatchP_iff P r base w
+
+/-- Hence over pairwise-disjoint predicates the deterministic and the non-deterministic matcher
+agree on every input. -/
+theorem pred_dfa_nfa_agree (r : Rx α) (base : Nat) {ord : List α → List α} (hord : IsOrder ord)
+    (hdis : DisjointOn P r) (w : List β) :
+    (matchFullP P r base ord w = .ok (some w.length)) ↔ nfaMatchP P r base w = true := by
+  rw [pred_match_iff P r base hord hdis, pred_nfa_match_iff]
+
+end predicates
+
+/-- `Identity` atoms are the instance `P a x := decide (a = x)`: the acceptor and the three
+matchers of sections 3-5 are the general ones at this `P`, the lifted language is `Lang r`,
+and the family is disjoint on every pattern. So `match_iff` ... `dfa_nfa_agree` are corollaries
+of the theorems of this section (two of them are re-derived that way right below). -/
+theorem identity_is_instance (r : Rx α) (base : Nat) (ord : List α → List α) (w : List α) :
+    predAcceptor (fun a x : α => decide (a = x)) = idAcceptor ∧
+    matchFullP (fun a x => decide (a = x)) r base ord w = matchFull r base ord w ∧
+    startsWithP (fun a x => decide (a = x)) r base ord w = startsWith r base ord w ∧
+    nfaMatchP (fun a x => decide (a = x)) r base w = nfaMatch r base w ∧
+    (LangP (fun a x => decide (a = x)) r w ↔ Lang r w) ∧
+    DisjointOn (fun a x : α => decide (a = x)) r :=
+  ⟨rfl, rfl, rfl, nfaMatchP_id r base w, langP_id_iff r w, disjointOn_id r⟩
+
+example (r : Rx α) (base : Nat) {ord : List α → List α} (hord : IsOrder ord) (w : List α) :
+    matchFull r base ord w = .ok (some w.length) ↔ Lang r w := by
+  rw [← matchFullP_id, pred_match_iff _ r base hord (disjointOn_id r), langP_id_iff]
+
+example (r : Rx α) (base : Nat) {ord : List α → List α} (hord : IsOrder ord) (w : List α)
+    (k : Nat) :
+    startsWith r base ord w = .ok (some k) ↔
+      (1 ≤ k ∧ k ≤ w.length ∧ Lang r (w.take k) ∧ ∀ j, 1 ≤ j → j < k → ¬ Lang r (w.take j)) := by
+  rw [← startsWithP_id, pred_starts_with_shortest _ r base hord (disjointOn_id r)]
+  simp only [langP_id_iff]
+
+/-! ### disjointness is needed -/
+
+namespace Ex
+
+/-- two OVERLAPPING predicates on natural numbers: atom `a` accepts `x` when `a ≤ x`
+(atom `0`: "anything", atom `1`: "positive") -/
+def Q : Nat → Nat → Bool := fun a x => decide (a ≤ x)
+
+/-- "anything or positive" -/
+def rq : Rx Nat := .alt (.atom 0) (.atom 1)
+
+end Ex
+
+/-- The hypothesis `DisjointOn` cannot be dropped from `pred_match_iff`, `pred_match_total`,
+`pred_starts_with_*`, `pred_dfa_nfa_agree`. With the overlapping predicates `Ex.Q` and the pattern
+`0 | 1`: the one-item sequence `[5]` is in the language, the NFA matcher says so, but the start
+row of the compiled table carries both predicates, both accept `5`, and `Pattern.consume` returns
+the error "Multiple transitions found!" - so do `match` and `starts_with`. -/
+theorem disjoint_needed :
+    ¬ DisjointOn Ex.Q Ex.rq ∧
+    LangP Ex.Q Ex.rq [5] ∧
+    nfaMatchP Ex.Q Ex.rq 1 [5] = true ∧
+    (∃ D, nfaToDfa (compile Ex.rq 1) id = some D ∧
+      (D.row .start).map (·.1) = [0, 1] ∧
+      consume (predAcceptor Ex.Q) (D.row .start) () 5 = .error .multipleTransitions) ∧
+    matchFullP Ex.Q Ex.rq 1 id [5] = .error .multipleTransitions ∧
+    startsWithP Ex.Q Ex.rq 1 id [5] = .error .multipleTransitions := by
+  refine ⟨?_, ?_, by decide +kernel, ?_, by decide +kernel, by decide +kernel⟩
+  · intro h
+    exact absurd (h 0 1 5 (.inl rfl) (.inr rfl) (by decide) (by decide)) (by decide)
+  · exact ⟨[0], .altL (.atom 0), .cons (by decide) .nil⟩
+  · cases hD : nfaToDfa (compile Ex.rq 1) id with
+    | none => exact absurd hD (by decide +kernel)
+    | some D =>
+      refine ⟨D, rfl, ?_⟩
+      have h : (match nfaToDfa (compile Ex.rq 1) id with
+          | some D => decide ((D.row .start).map (·.1) = [0, 1] ∧
+              consume (predAcceptor Ex.Q) (D.row .start) () 5 = .error .multipleTransitions)
+          | none => false) = true := by decide +kernel
+      rw [hD] at h
+      exact of_decide_eq_true h
+
+/-! ## 7. non-vacuity -/
+
+/-! ### `Identity` atoms: nested repetitions of nullable patterns, negative outcomes, the NFA matcher -/
 
 example : matchFull (.star (.opt (.atom 1))) 1 id [1, 1] = .ok (some 2) := by decide +kernel
 example : matchFull (.plus (.opt (.atom 1))) 7 id [] = .ok (some 0) := by decide +kernel
+example : matchFull (.plus (.atom 1)) 1 id [1, 2] = .ok none := by decide +kernel
+example : matchFull (.star (.opt (.atom 1))) 3 List.reverse [1, 2, 1] = .ok none := by decide +kernel
 example : startsWith (.cat (.atom 1) (.star (.atom 2))) 1 id [1, 2, 2] = .ok (some 1) := by decide +kernel
+example : startsWith (.cat (.plus (.atom 1)) (.atom 2)) 1 id [1, 1, 2, 2] = .ok (some 3) := by
+  decide +kernel
+example : startsWith (.cat (.atom 1) (.plus (.atom 2))) 1 id [1, 1, 2] = .ok none := by decide +kernel
+example : startsWith (.star (.opt (.atom 1))) 1 id [2, 1] = .ok none := by decide +kernel
+example : nfaMatch (.star (.opt (.atom 1))) 1 [1, 1] = true := by decide +kernel
+example : nfaMatch (.star (.opt (.atom 1))) 1 [1, 2] = false := by decide +kernel
+example : nfaMatch (.plus (.alt (.atom 1) (.cat (.atom 2) (.atom 3)))) 4 [2, 3, 1, 2, 3] = true := by
+  decide +kernel
 example : IsOrder (id : List Nat → List Nat) := fun _ => List.Perm.refl _
 example : IsOrder (List.reverse : List Nat → List Nat) := fun l => List.reverse_perm l
+
+/-! ### a disjoint family of predicates on natural numbers that is not `Identity` -/
+
+namespace Ex
+
+/-- three predicate objects -/
+inductive Cls where
+  | even | smallOdd | bigOdd
+  deriving DecidableEq, Repr
+
+/-- what they accept: "is even" / "is odd and below 10" / "is odd and at least 10" -/
+def P : Cls → Nat → Bool
+  | .even, x => x % 2 == 0
+  | .smallOdd, x => x % 2 == 1 && decide (x < 10)
+  | .bigOdd, x => x % 2 == 1 && decide (10 ≤ x)
+
+/-- `even+ (smallOdd | (bigOdd?)*)`: a repetition of a nullable pattern inside a sequence -/
+def r : Rx Cls :=
+  .cat (.plus (.atom .even)) (.alt (.atom .smallOdd) (.star (.opt (.atom .bigOdd))))
+
+/-- `even+ smallOdd` -/
+def r2 : Rx Cls := .cat (.plus (.atom .even)) (.atom .smallOdd)
+
+/-- the three predicates are pairwise disjoint (on every pattern) -/
+theorem P_disjoint (r : Rx Cls) : DisjointOn P r := by
+  intro a b x _ _ ha hb
+  cases a <;> cases b <;> simp [P] at ha hb ⊢ <;> omega
+
+example : matchFullP P r 1 id [2, 4, 7] = .ok (some 3) := by decide +kernel
+example : matchFullP P r 1 List.reverse [2, 11, 13, 15] = .ok (some 4) := by decide +kernel
+example : matchFullP P r 9 id [8] = .ok (some 1) := by decide +kernel
+example : matchFullP P r 1 id [2, 7, 7] = .ok none := by decide +kernel
+example : matchFullP P r 1 id [2, 11, 4] = .ok none := by decide +kernel
+example : startsWithP P r 1 id [4, 6, 11, 3] = .ok (some 1) := by decide +kernel
+example : startsWithP P r2 1 id [2, 4, 7, 8] = .ok (some 3) := by decide +kernel
+example : startsWithP P r2 1 id [2, 4, 11] = .ok none := by decide +kernel
+example : nfaMatchP P r 1 [2, 11, 13] = true := by decide +kernel
+example : nfaMatchP P r 1 [2, 7, 7] = false := by decide +kernel
+
+/-- the theorems apply: from the computed outcome to membership in the lifted language and back -/
+example : LangP P r [2, 4, 7] :=
+  (pred_match_iff P r 1 (ord := id) (fun _ => List.Perm.refl _) (P_disjoint r) [2, 4, 7]).1
+    (by decide +kernel)
+example : ¬ LangP P r [2, 7, 7] :=
+  (pred_no_match_iff P r 1 (ord := id) (fun _ => List.Perm.refl _) (P_disjoint r) [2, 7, 7]).1
+    (by decide +kernel)
+/-- a labelling by hand: `2, 4` are even, `7` is a small odd number -/
+example : LangP P r [2, 4, 7] :=
+  ⟨[.even, .even, .smallOdd],
+    by
+      show Lang (.cat _ _) ([Cls.even, Cls.even] ++ [Cls.smallOdd])
+      exact .cat (.plusCons (u := [Cls.even]) (v := [Cls.even]) (.atom _) (.plusOne (.atom _)))
+        (.altL (.atom _)),
+    .cons (by decide) (.cons (by decide) (.cons (by decide) .nil))⟩
+
+end Ex
 
 end CL.C13
